@@ -292,7 +292,16 @@ def render_fault(rng, ser: List[str], p: str = "s") -> str:
     else:
         kids = ""
         ser.append("fault:childless")
-    return f"<{p}:Fault xmlns:{p}=\"{NS_SOAP}\">{kids}</{p}:Fault>"
+    # how the Fault element names the SOAP namespace: its own prefix declaration (most devices), or a
+    # default namespace on the element itself (no prefix anywhere in the text), or an unusual prefix
+    style = rng.random()
+    if style < 0.7:
+        return f"<{p}:Fault xmlns:{p}=\"{NS_SOAP}\">{kids}</{p}:Fault>"
+    if style < 0.9:
+        ser.append("fault:default-ns")
+        return f"<Fault xmlns=\"{NS_SOAP}\">{kids}</Fault>"
+    ser.append("fault:odd-prefix")
+    return f"<SOAP-ENV:Fault xmlns:SOAP-ENV=\"{NS_SOAP}\">{kids}</SOAP-ENV:Fault>"
 
 
 GARBAGE = ["", "not xml at all", "<unclosed", "<a></b>", "<html><body><h1>500 Internal Server Error</h1></body>", "\0\0\0",
